@@ -24,12 +24,16 @@ RULE = ("random histories of 6-25 public query/conversion calls over a pool of l
         "_normal_form) are compared with the Lean state machine of the object; a fifth are histories on one automaton "
         "object that is edited between queries (add / remove transitions incl. epsilon moves, start and final marks): "
         "every query must answer as a freshly built automaton with the current structure and as the model of that "
-        "structure; a sixth are histories on a population of Regex objects that share their operands (Regex(text), union / "
+        "structure (also of a DFA, also to_regex); a seventh are histories of mutator calls on one EpsilonNFA / NFA / DFA "
+        "object (re-adding on entries emptied by removals, second targets, epsilon on a DFA): returned integers, "
+        "exception classes and the private fields (_transitions as the dict of dicts it is) after every call against "
+        "the Lean object model, table queries against the model, public queries against a fresh object holding only "
+        "what is present; a sixth are histories on a population of Regex objects that share their operands (Regex(text), union / "
         "concatenate / kleene_star incl. an object with itself and inner nodes, to_epsilon_nfa, accepts, edits of the "
         "automata handed out): every answer (state numbers included) and the private _counter / _enfa / _enfa_accepts "
         "of every object against the Lean heap model, the verified matcher and fresh equal objects. Non-trivial: history "
         "with >=8 calls touching >=3 kinds of objects / >=5 calls of >=3 kinds on the grammar object.")
-EXPLANATION = "History independence is decided by running every call of a random history twice on the real code - on the live objects and on freshly rebuilt equal objects - and comparing canonical results and operand snapshots; a divergence is certified by the two runs themselves. The value-semantics of the individual operations is what C01-C18 prove; the one piece of hidden mutable state that survives a call - the in-place production counters and impact lists behind get_generating_symbols / get_nullable_symbols - is modelled step for step (Pfl/Model/CFGCounters.lean), proved to be restored by every run and to give history-independent answers (genCounters_restores, genCounters_history), and compared with the implementation's cached tables after every grammar call of a history. The grammar object as a whole is modelled as a state machine (Pfl/Model/CFGObject.lean: the four caches and the ten public methods that read or fill them, following the method bodies); history_independent proves that after any history every call answers what the grammar alone determines (the invariant: every cache holds only what a fresh object computes), and the implementation's answers and private cache fields are compared with the state machine after every call of a random history. Regex objects are modelled as a heap of objects sharing their operands by address (Pfl/Model/RegexObject.lean: the private state counter that is never reset, the counter lent to and taken back from the sons, the automaton cached by accepts); Pfl.RxObj.history_independent proves that along any history every call answers what the tree of the object determines (the automaton handed out is the Thompson automaton of a fresh object shifted by the current counter, thompson_shift, and accepts is membership), and counters and caches of every object are compared with the model after every call."
+EXPLANATION = "History independence is decided by running every call of a random history twice on the real code - on the live objects and on freshly rebuilt equal objects - and comparing canonical results and operand snapshots; a divergence is certified by the two runs themselves. The value-semantics of the individual operations is what C01-C18 prove; the one piece of hidden mutable state that survives a call - the in-place production counters and impact lists behind get_generating_symbols / get_nullable_symbols - is modelled step for step (Pfl/Model/CFGCounters.lean), proved to be restored by every run and to give history-independent answers (genCounters_restores, genCounters_history), and compared with the implementation's cached tables after every grammar call of a history. The grammar object as a whole is modelled as a state machine (Pfl/Model/CFGObject.lean: the four caches and the ten public methods that read or fill them, following the method bodies); history_independent proves that after any history every call answers what the grammar alone determines (the invariant: every cache holds only what a fresh object computes), and the implementation's answers and private cache fields are compared with the state machine after every call of a random history. Regex objects are modelled as a heap of objects sharing their operands by address (Pfl/Model/RegexObject.lean: the private state counter that is never reset, the counter lent to and taken back from the sons, the automaton cached by accepts); Pfl.RxObj.history_independent proves that along any history every call answers what the tree of the object determines (the automaton handed out is the Thompson automaton of a fresh object shifted by the current counter, thompson_shift, and accepts is membership), and counters and caches of every object are compared with the model after every call. An automaton object edited through its API is modelled with its transition table as the dict of dicts it is (Pfl/Model/FAObject.lean: entries emptied by remove_transition stay, the deterministic table refuses epsilon and a second target and deletes keys); Pfl.FAObj.run_refines proves that after any history the object stands for the value obtained by plain set insertions and removals, the table queries are functions of the set of transitions present (tfDeterministic_iff, numTransitions_eq, mem_call_iff) and two histories leading to the same sets answer alike (Pfl.FAObj.history_independent); returned integers, exception classes and private fields are compared with the model after every call."
 THEOREMS = ["Pfl.CFG.genCounters_restores",
             "Pfl.CFG.genCounters_history",
             "Pfl.CFG.genCounters_generating",
@@ -54,7 +58,18 @@ THEOREMS = ["Pfl.CFG.genCounters_restores",
             "Pfl.RxObj.step_answer",
             "Pfl.RxObj.accepts_exact",
             "Pfl.RxObj.history_independent",
-            "Pfl.RxObj.step_isSome"]
+            "Pfl.RxObj.step_isSome",
+            "Pfl.FAObj.run_refines",
+            "Pfl.FAObj.step_refines",
+            "Pfl.FAObj.step_tinv",
+            "Pfl.FAObj.step_error_iff",
+            "Pfl.FAObj.step_error_abs",
+            "Pfl.FAObj.remT_result",
+            "Pfl.FAObj.numTransitions_eq",
+            "Pfl.FAObj.tfDeterministic_iff",
+            "Pfl.FAObj.mem_call_iff",
+            "Pfl.FAObj.det_functional",
+            "Pfl.FAObj.history_independent"]
 REGEX_TEXTS = ["a", "b", "a b", "a*", "a|b", "(a|b)*", "a b*", "$", "a (b|a)"]
 WORDS = [[], ["a"], ["b"], ["a", "b"], ["a", "a"], ["b", "a"], ["a", "b", "b"]]
 
